@@ -164,9 +164,9 @@ func (c *VCtx) sharedHavoc(st *State, before *State) {
 		switch g.kind {
 		case "owned":
 			// entries equal to my invocation id are exactly the ones I hold, before and after
-			c.fact(T(SBool, fmt.Sprintf("(forall ((k %s)) (! (= (= (select %s k) me) (= (select %s k) me)) :pattern ((select %s k))))", ks, old.S, nw.S, nw.S)))
+			c.linkFact(T(SBool, fmt.Sprintf("(forall ((k %s)) (! (= (= (select %s k) me) (= (select %s k) me)) :pattern ((select %s k))))", ks, old.S, nw.S, nw.S)))
 		case "once":
-			c.fact(T(SBool, fmt.Sprintf("(forall ((k %s)) (! (=> (not (= (select %s k) %s)) (= (select %s k) (select %s k))) :pattern ((select %s k))))", ks, old.S, g.zero, nw.S, old.S, nw.S)))
+			c.linkFact(T(SBool, fmt.Sprintf("(forall ((k %s)) (! (=> (not (= (select %s k) %s)) (= (select %s k) (select %s k))) :pattern ((select %s k)) :pattern ((select %s k))))", ks, old.S, g.zero, nw.S, old.S, nw.S, old.S)))
 		}
 		// nobody else knows the cells that are still local to this call
 		cur := nw
